@@ -164,7 +164,22 @@ MacroTimeoutEdgeT(S0, c, P, k) == LET o == Cp(c)
     << Blk(o, d), Upd(c, h), [a |-> Proto(P, "Timeout"), c |-> c, dt |-> 1, pkt |-> P, ph |-> h,
                               nsr |-> IF KIND = "ORDERED" THEN S0.ch[o].cur.nr ELSE 1] >>
 
-EdgeMacros(S0) ==
+\* Stale-proof timeout: the destination is driven past the timeout and the client updated to that block,
+\* but the relayer proves non-receipt at an OLDER height the client also holds, where the timeout had not
+\* yet been reached (must fail: elapsed-ness is judged at the proof height, not at the client's latest height).
+MacroTimeoutStale(S0, c, P, old) == LET o == Cp(c)
+                                        n == IF BlocksToElapse(S0, c, P) < 1 THEN 1 ELSE BlocksToElapse(S0, c, P)
+                                        h == S0.ch[o].h + n IN
+    Rep(Blk(o, 2), n) \o
+    << Upd(c, h),
+       [a |-> Proto(P, "Timeout"), c |-> c, dt |-> 1, pkt |-> P, ph |-> old,
+        nsr |-> IF KIND = "ORDERED" THEN ProvAt(S0, c, old).nr ELSE 1] >>
+
+StaleMacros(S0) == UNION { UNION {
+      { MacroTimeoutStale(S0, c, P, old) : old \in { x \in S0.ch[c].cons : x >= 0 /\ ~G_DestElapsedAtProof(S0, c, P, x) } }
+    : P \in { Q \in PendingTimeout(S0, c) : BlocksToElapse(S0, c, Q) <= 6 } } : c \in Chains }
+
+EdgeMacros(S0) == StaleMacros(S0) \cup
     UNION { UNION {
          { MacroRecvEdgeH(S0, c, P, k) : P \in { Q \in PendingRecv(S0, c) : Q.proto = "v1" /\ Q.toH # 0
                                                    /\ Q.toH - k - 2 - S0.ch[c].h \in 0..8 } }
